@@ -121,7 +121,7 @@ def potable(ini_text, args=(), want_output=True, binary=False, name='model.aspot
     from atsim.potentials.tools import potable as P
     d = tempfile.mkdtemp(prefix='p', dir=scratch())
     cfg = os.path.join(d, name)
-    with open(cfg, 'w') as f:
+    with open(cfg, 'wb' if isinstance(ini_text, bytes) else 'w') as f:
         f.write(ini_text)
     out = os.path.join(d, 'OUT')
     real = None
